@@ -38,6 +38,9 @@ def run(tier, seed):
     obs += envelope.guard_moments("C02", "M6", ["mean", "sample_variance"] + [["central_moment", p] for p in range(2, 7)],
                                   "<define_moments!(_, 6) as Merge>::merge", with_merge=True)
     obs += vl.run_lemmas("C02", ["merge_tree", "concat", "tree_equals", "lemma_fold"])
+    # the binomial-coefficient iterator shared by add and merge of every order: extracted and verified by Verus for EVERY n
+    import verus_units
+    obs += verus_units.iterbinomial_obligations("C02")
     meta = {
         "level": "proof",
         "checker_cmd": "./check C02 (rsx -> RS executor -> sympy normal form / z3 QF_NRA; verus history.rs)",
@@ -47,12 +50,14 @@ def run(tier, seed):
                                     ["<Moments%d as Merge>::merge (define_moments!), IterBinomial::{new,next}" % N for N in orders],
         "source_files": ["src/moments/mean.rs", "src/moments/variance.rs", "src/moments/skewness.rs", "src/moments/kurtosis.rs", "src/moments/mod.rs"],
         "extraction": EXTRACTION + "; define_moments_common!/define_moments_inner! are instantiated by token substitution ($name, $MAX_MOMENT, $crate) and parsed, nothing else is rewritten; callees (Skewness::merge inside Kurtosis::merge, ...) are executed from their real bodies in the main obligations, and additionally every nested merge is replaced by its CONTRACT (requires checked, state havocked, ensures assumed) in the `via_contract_of_*` obligations, so each merge is also proved modularly from the contract of the merge it delegates to",
-        "trusted_base": ["rsx + RS executor (own code)", "sympy polynomial arithmetic", "z3 5.1 nlsat", "Verus (merge-tree lemma)"],
-        "assumptions": [A_REAL, A_INT, A_LIB,
+        "trusted_base": ["Verus 0.2026.09.13 / z3 on the mechanically extracted IterBinomial (contracts/verus/iterbinomial.rs.tmpl: struct re-printed from the AST; `pub`, `#[inline]`, the `impl Iterator for` header and `type Item` dropped; `-> T` written `-> (r: T)`; a ghost proof block after the opening brace of next; bodies verbatim)", "rsx + RS executor (own code)", "sympy polynomial arithmetic", "z3 5.1 nlsat", "Verus (merge-tree lemma)"],
+        "assumptions": ["IterBinomial (Verus, all n): next() yields C(n, k) under the precondition that k*C(n,k) fits u64 (true for every order up to 62); machine integers are u64 in the proof, not mathematical",
+                        A_REAL, A_INT, A_LIB,
                         "configurations: define_moments! orders %s (loops unrolled: bounds are the macro parameter, complete per order)" % orders,
                         "every chunking / bracketing / empty chunk: Verus lemma_merge_tree + lemma_summary_concat over the power-sum monoid; merge(&mut self, &Self) cannot modify its argument (rustc, also checked as frame_other)",
                         "the forward-error envelope after merging is not decided (A-REAL); a BOUNDED known-answer corpus (envelope_guard.merge) exercises it on ill-conditioned samples"],
         "explanation": "both operands symbolic representations of arbitrary summaries Pa, Pb; four emptiness cases; post-state equals the representation of Pa+Pb.",
     }
     from confirm_rs import confirm_moment
-    return obs, meta, lambda ob: envelope.confirm_from_cex(ob) or confirm_moment(ob, {"Moments4": "Moments4", "Moments5": "M5", "Moments6": "M6", "Moments8": "M8", "Moments10": "M10"})
+    import verus_units
+    return obs, meta, lambda ob: verus_units.confirm(ob, "C02") or envelope.confirm_from_cex(ob) or confirm_moment(ob, {"Moments4": "Moments4", "Moments5": "M5", "Moments6": "M6", "Moments8": "M8", "Moments10": "M10"})
